@@ -77,7 +77,7 @@ TABLE = {
             "path must parse back to the parameters and the map must be injective.", "enumerated products", "2/C17"),
 }
 
-BUILT = ["C01", "C02", "C03", "C04", "C05", "C06", "C07", "C08", "C09", "C10", "C12", "C13", "C14", "C16"]
+BUILT = sorted(TABLE)
 
 
 def build():
